@@ -205,3 +205,12 @@ Theorem C04_callable_path_head : forall sk c d,
   callable_path_v sk c d = dotted_from (canonical_v sk c (aroot (deco_head d))) (asegs (deco_head d)).
 Proof. exact callable_path_head. Qed.
 Print Assumptions C04_callable_path_head.
+
+(* `nonlocal n` in a class body written directly inside a function (__init__) that binds n, the class body not binding n
+   itself: both forms of the walk give the function's binding, as CPython does *)
+Theorem C04_nonlocal_decl_direct : forall sk L f r n,
+  wf_chain (L :: f :: r) = true -> is_class L = true -> is_function f = true ->
+  g_bind L (f :: r) n = None -> n <> fname f -> py_bind f r n <> None ->
+  resolve_v sk false (L :: f :: r) n = py_lookup_decl DNonlocal (L :: f :: r) n.
+Proof. exact nonlocal_decl_direct. Qed.
+Print Assumptions C04_nonlocal_decl_direct.
